@@ -90,6 +90,8 @@ def gen(rng, tier):
             yield Case("split", [rs, ";".join(rngs) if rngs else "_"], True, "split")
     for c in gen_cli(rng, tier):
         yield c
+    for c in gen_cli_multi(rng, tier):
+        yield c
 
 
 def gen_cli(rng, tier):
@@ -107,6 +109,31 @@ def gen_cli(rng, tier):
         yield Case("cli_subseq", [stdin] + argv, True, "cli-subseq-refseq")
 
 
+def gen_cli_multi(rng, tier):
+    """several alignments in one Phylip input (a documented feature of subseq)"""
+    N = 40 if tier == "quick" else 300
+    for _ in range(N):
+        k = rng.randint(2, 3)
+        n = rng.randint(1, 3)
+        names = ["ref"] + ["s%d" % i for i in range(1, n)]
+        blocks = []
+        minres = 99
+        for _a in range(k):
+            L = rng.randint(3, 9)
+            rows = []
+            for nm in names:
+                s = "".join(rng.choice("ACGT" + "-" * rng.choice([0, 2, 4])) for _ in range(L))
+                if nm == "ref" and s.replace("-", "") == "":
+                    s = "A" + s[1:]
+                rows.append((nm, s))
+            minres = min(minres, len(rows[0][1].replace("-", "")))
+            blocks.append(" %d %d|" % (len(rows), L) + "".join("%s  %s|" % r for r in rows))
+        st = rng.choice([0, 0, 1, max(0, minres - 1)])
+        ln = rng.choice([1, 2, max(1, minres - st), minres + 1])
+        yield Case("cli_subseq_multi", ["".join(blocks), "subseq", "-p", "--ref-seq", "ref", "-s", str(st), "-l", str(ln)],
+                   True, "cli-subseq-refseq-multi")
+
+
 def shrink(c):
     if c.op.startswith("cli"):
         return
@@ -114,4 +141,5 @@ def shrink(c):
     rows = [] if a[0] == "_" else [tuple(r.split(":", 1)) for r in a[0].split(",")]
     for i in range(len(rows)):
         r2 = rows[:i] + rows[i + 1:]
-        yield Case(c.op, [rows_str(r2)] + a[1:])
+        if r2:
+            yield Case(c.op, [rows_str(r2)] + a[1:])
